@@ -33,6 +33,12 @@ impl Strat for arc_swap::strategy::test_strategies::FillFastSlots {
     const NAME: &'static str = "nofast";
 }
 
+/// The lock-based reference strategy (internal to the crate, used as an oracle by its own tests);
+/// its RwLock is the engine-aware shim, so it can be explored like the others.
+impl Strat for rt::sync::RwLock<()> {
+    const NAME: &'static str = "rwlock";
+}
+
 /// A container under test with a small id used in histories.
 pub struct Cont<S: Strat> {
     pub sw: ArcSwapAny<V, S>,
